@@ -412,12 +412,17 @@ def make_machine(extra):
 
 
 def replay(body) -> int:
+    common.REC.known.clear()
     ex = Exec()
     try:
         for op in body["ops"]:
             ex.apply(op)
     except Violation as v:
         print("REPLAY: reproduced", v.signature, str(core.to_jsonable(v.detail))[:600])
+        return 1
+    if common.REC.known:
+        for sig, k in common.REC.known.items():
+            print("REPLAY: reproduced (listed as an open known finding)", sig, str(k["detail"])[:400])
         return 1
     print("REPLAY: operation list ran clean on this tree")
     return 0
